@@ -16,7 +16,10 @@ import (
 	"sort"
 	"strings"
 
+	"github.com/ipfs/go-cid"
 	"github.com/ipld/go-ipld-prime/datamodel"
+	cidlink "github.com/ipld/go-ipld-prime/linking/cid"
+	mh "github.com/multiformats/go-multihash"
 	"github.com/ipld/go-ipld-prime/node/basicnode"
 	"github.com/storacha/go-ucanto/client"
 	"github.com/storacha/go-ucanto/core/car"
@@ -468,6 +471,27 @@ func c15Replies(seed int64, tier string) ([]*reply, []invocation.Invocation, uca
 		add(&reply{Label: "root-block-missing", Roots: []ipld.Link{root.Link()}, Blocks: invBlocks(invs[0])})
 		add(&reply{Label: "no-roots", Roots: nil, Blocks: invBlocks(invs[0])})
 		add(&reply{Label: "two-roots", Roots: []ipld.Link{root.Link(), invs[0].Link()}, Blocks: append([]ipld.Block{root}, invBlocks(invs[0])...), HasMsg: true})
+	}
+	// 4b. blocks addressed by CIDs shorter than a sha2-256 CID (identity multihash, digest truncated to 20 bytes):
+	// both are valid under their own prefix, so the CAR reader delivers them; the message / receipt decoder must refuse
+	// them (or read them) without panicking
+	shortCID := func(b ipld.Block, kind string) ipld.Block {
+		var d mh.Multihash
+		if kind == "identity" {
+			d, _ = mh.Sum(b.Bytes(), mh.IDENTITY, -1)
+		} else {
+			d, _ = mh.Sum(b.Bytes(), mh.SHA2_256, 20)
+		}
+		return block.NewBlock(cidlink.Link{Cid: cid.NewCidV1(0x71, d)}, b.Bytes())
+	}
+	for _, kind := range []string{"identity", "sha256-20"} {
+		if root, err := encodeMsg(nil, nil); err == nil {
+			alt := shortCID(root, kind)
+			add(&reply{Label: "root-addressed-by-" + kind + "-cid", Roots: []ipld.Link{alt.Link()}, Blocks: []ipld.Block{alt}})
+		}
+		alt := shortCID(rcpts[0].Root(), kind)
+		add(mk("receipt-addressed-by-"+kind+"-cid", nil, report([]string{invs[0].Link().String()}, []ipld.Link{alt.Link()}),
+			append([]ipld.Block{alt}, invBlocks(invs[0])...), nil))
 	}
 	// 5. statuses and raw bodies
 	good := mk("good", nil, report([]string{invs[0].Link().String()}, []ipld.Link{rcpts[0].Root().Link()}), append(blocksOf(rcpts[0], true), invBlocks(invs[0])...), nil)
